@@ -77,7 +77,12 @@ func (k *kernel) leanType(t ast.Expr, imp map[string]string, tables bool) string
 }
 
 func kindOfType(t string) vkind {
+	if strings.HasPrefix(t, "{") {
+		return vStruct
+	}
 	switch t {
+	case "σ":
+		return vSeries
 	case "Int":
 		return vIntVar
 	case "Bool":
